@@ -32,6 +32,50 @@ CHECKS = {
         "(positive expectations wait 5 s, negative ones 250 ms, so a slow machine cannot fabricate an alarm).",
    technique="Lean 4 proof (invariant over a labelled transition system) + model-predicted scenario replay against the real server",
    ref="DESIGN.md §5 C15"),
+ "C06": dict(
+   text="Lean theorems over the handler model the driver executes (read frame -> command -> map operation -> one reply): every well-formed SET/GET/DEL request frame is parsed back to its command; for any "
+        "request sequence the handler writes exactly the concatenation of the map model's replies, in order, one per request, and leaves the store as the map does; GET returns the stored bytes verbatim; "
+        "DEL counts each key as it is deleted in turn. Tied to the real server over loopback TCP: request scripts x segmentations (down to one byte) x pipelining depths, values with CR/LF/NUL and up to "
+        "200 KB, compared byte for byte with a python map and the Lean model.",
+   note=COMMON_NOTE + "PARTIAL: the theorem is at the level of the frames a connection delivers; that those frames are independent of segmentation is C08 (c08 theorems), that the real store is the map is C01. "
+        "Trusted: kernel TCP delivers bytes in order; tokio scheduling of handler and blocking pool.",
+   technique="Lean 4 proof (handler model refines the map model, induction over requests) + differential correspondence with the real server over TCP",
+   ref="DESIGN.md §5 C06"),
+ "C10": dict(
+   text="Lean theorems for every byte stream in every segmentation: the connection handler model never ends by a panic (no index/overflow/advance panic in check, parse, parse_frame, the reader loop, "
+        "the command layer; replies are never arrays so write_frame never hits unimplemented!); the store afterwards is exactly the store before with the leading well-formed commands applied; accepted "
+        "lengths never exceed the bytes received. Tied to the real server: ~55 hostile streams (garbage, wrong arity, non-UTF-8, truncations, 200000-deep nesting, 19-20 digit lengths, mutations) each on its "
+        "own connection interleaved with a well-behaved persistent connection; process/run loop alive, control replies and final store equal the model's.",
+   note=COMMON_NOTE + "PARTIAL: isolation between connections is structural in the model (connections share only the store); tokio's containment of a task panic, memory exhaustion by sheer volume and the "
+        "stack bound of the real recursion (depth limit 32 proved for the model, real stack use observed) are runtime facts.",
+   technique="Lean 4 proof (totality + store = fold of well-formed command prefix) + hostile-corpus replay against the real server",
+   ref="DESIGN.md §5 C10"),
+ "C16": dict(
+   text="Lean theorems over the handler Shutdown LTS (top / select / executing / writing / done): a handler is never `done` with part of a reply on the wire (no torn reply); replies sent never exceed "
+        "store operations returned (every acknowledged command is in the store), also for a reply still being written; after the signal a handler always has an own step enabled and every step strictly "
+        "decreases an explicit distance to `done` (bounded by frames still deliverable), so run returns. Tied to the real server by firing the shutdown future at each handler state (idle, partial frame, "
+        "store call held on a gate, pipelined commands, 600 KB reply in flight, mixed).",
+   note=COMMON_NOTE + "PARTIAL: protocol logic proved; select! fairness under endless pipelining, TCP turning close-with-unread-data into RST (accepted as end of stream) and wall-clock bounds are observed, not proved. "
+        "A client that never reads its reply is outside the property's listed client states.",
+   technique="Lean 4 proof (safety invariant + variant function on a labelled transition system) + scenario replay against the real server",
+   ref="DESIGN.md §5 C16"),
+ "C17": dict(
+   text="Lean theorems over the Close LTS: after the drop every handle operation returns `closed` and leaves the state (incl. the count of file-system calls) unchanged; no step of the background worker - "
+        "including the merge/sync it was about to run - issues a call; from every worker state the worker exits within 5 own steps, is never stuck waiting for its timer, and ticks change nothing. "
+        "Tied to the real store: drop while the worker sleeps with a far timer / is parked between can_merge() and the merge call / syncs / merges continuously; all APIs must fail with closed, the LD_PRELOAD "
+        "recorder must see no call, the worker thread must be gone within 3 s, the directory must reopen with the pre-drop contents; 50 open/close cycles with thread and descriptor counts.",
+   note=COMMON_NOTE + "PARTIAL: thread exit, descriptor release and tokio runtime teardown are runtime facts, observed with deadlines; dropping the store while a merge pass is already executing is outside the listed states.",
+   technique="Lean 4 proof (labelled transition system, distance function) + forced-schedule replay with I/O recorder",
+   ref="DESIGN.md §5 C17"),
+ "C18": dict(
+   text="Lean theorems: with policy never the trigger decision is false for all counters; with policy always it is true iff some file exceeds the dead-bytes or the fragmentation trigger (rational comparison, "
+        "meaning spelled out); no trigger exceeded implies no merge request; the timer loop wakes within hi = interval(1+jitter) of any instant while running, the sync loop within interval. The decision "
+        "function is the one the driver evaluates against Context::can_merge on the same histories. Tied to the real store by leaving it alone under policies always/never/window with triggers just "
+        "above/below the written pattern and jitter 0/0.3/1: a merge must appear within the bound + 4 s or not at all; interval sync observed through fsync calls.",
+   note=COMMON_NOTE + "PARTIAL: real time is outside the model (bounds are checked with 4 s slack for positive expectations and >= 12 intervals of silence for negative ones); f64 thresholds are compared as rationals "
+        "(dyadic / small-denominator thresholds only); the clock hour of window policies is read from the host.",
+   technique="Lean 4 proof (decision logic stated outright + timer-gap lemma) + timed observation of the real background tasks",
+   ref="DESIGN.md §5 C18"),
 }
 NOT_YET = "check under construction in this session; will be claimed once its machinery is committed"
 def main():
